@@ -375,6 +375,9 @@ impl Storage {
         // otherwise, if the process is killed in the middle, the blocks before the previous
         // min filtered block number will never be filtered for the new scripts.
         if let Some(min_number) = min_block_number {
+            // The filter syncing continues at the next block number: it has to exist, whatever
+            // start numbers are given.
+            let min_number = min_number.min(BlockNumber::MAX - 1);
             batch
                 .put(
                     Key::Meta(MIN_FILTERED_BLOCK_NUMBER).into_vec(),
